@@ -18,6 +18,7 @@ import importlib
 import json
 import os
 import shutil
+import signal
 import subprocess
 import sys
 import tempfile
@@ -44,6 +45,14 @@ class Violation(Exception):
 
 class Skip(Exception):
     """The case is outside the property's domain or numerically degenerate (counted)."""
+
+
+class CaseWatchdog(BaseException):
+    """Raised by the per-case alarm: the case is abandoned and counted as skipped (never a verdict)."""
+
+
+def _alarm(*_a):
+    raise CaseWatchdog()
 
 
 def jd(o):
@@ -141,8 +150,19 @@ class Ctx:
     def evaluate(self, fn, case):
         self._case = case
         self._nontrivial = False
+        limit = int(self.cfg.get('case_timeout', 180))
+        t_case = time.time()
+        if limit and hasattr(signal, 'SIGALRM'):
+            signal.signal(signal.SIGALRM, _alarm)
+            signal.alarm(limit)
         try:
-            fn(self, case)
+            try:
+                fn(self, case)
+            finally:
+                if limit and hasattr(signal, 'SIGALRM'):
+                    signal.alarm(0)
+        except CaseWatchdog:
+            self.skips['watchdog: case exceeded %ds (abandoned, not a verdict)' % limit] += 1
         except Violation as v:
             self.violation(v.key, v.msg, v.witness)
         except Skip as s:
@@ -156,6 +176,7 @@ class Ctx:
             else:
                 self.harness_errors.append(tb[-3000:])
         self.evaluations += 1
+        self.slowest = max(getattr(self, 'slowest', 0.0), time.time() - t_case)
         if self._nontrivial:
             self.nontrivial_fps.add(fingerprint(case))
         if len(self.samples) < 2 and (self._nontrivial or self.evaluations > 3):
@@ -169,7 +190,7 @@ class Ctx:
             'distincts': {k: sorted(v) for k, v in self.__dict__.get('distincts', {}).items()},
             'samples': self.samples, 'violations': self.violations,
             'viol_counts': dict(self.viol_counts), 'harness_errors': self.harness_errors[:3],
-            'n_harness_errors': len(self.harness_errors),
+            'n_harness_errors': len(self.harness_errors), 'slowest_case_s': round(getattr(self, 'slowest', 0.0), 2),
         }
 
 
@@ -381,6 +402,7 @@ def decide(mod, prop, tier, seed, results, failures, wall):
         'skipped': dict(skips),
         'shards': len(results),
         'floor_nontrivial': floor,
+        'slowest_case_s': max([r.get('slowest_case_s', 0) for r in results] or [0]),
         'required_counters': required,
         'violation_counts_by_key': dict(viol_counts),
         'known_findings_observed': list(known_hit.keys()),
